@@ -70,6 +70,31 @@ pub fn last_panic_location() -> String {
     PANICS.lock().ok().and_then(|g| g.last().cloned()).unwrap_or_default()
 }
 
+/// Self-check of the interposition layer: replaying the whole trace must give exactly the chunk
+/// files that are on disk. A mismatch means the store did I/O the trace did not see (a call
+/// that is not interposed); every trace-based verdict would then be unfounded.
+pub fn trace_matches_disk(ctl: &Ctl, dir: &str) -> Result<(), String> {
+    let sh = crate::shadowfs::Shadow::replay(&ctl.trace, ctl.trace.len());
+    let want = sh.process_image(&ctl.names);
+    let got = crate::shadowfs::read_image(dir).map_err(|e| format!("cannot list {dir}: {e}"))?;
+    if want == got {
+        return Ok(());
+    }
+    for (n, d) in &got {
+        match want.get(n) {
+            None => return Err(format!("{n} exists on disk ({} bytes) but not in the trace", d.len())),
+            Some(w) if w != d => return Err(format!("{n}: {} bytes on disk, {} bytes according to the trace (or different content)", d.len(), w.len())),
+            _ => {}
+        }
+    }
+    for n in want.keys() {
+        if !got.contains_key(n) {
+            return Err(format!("{n} exists according to the trace but not on disk"));
+        }
+    }
+    Err("unknown difference".into())
+}
+
 /// Run `f` on a fresh store under an active trace; always tears everything down (store
 /// dropped, worker threads gone, trace ended, directory removed). Returns `f`'s result and
 /// the finished trace context.
@@ -92,7 +117,11 @@ pub fn with_run<R>(cfg: &CfgSpec, stepped: bool, faults: &[FaultRule], f: impl F
     }
     let ctl = trace::end();
     drop(run_slot);
+    let complete = trace_matches_disk(&ctl, &dir);
     remove_dir(&dir);
+    if let Err(why) = complete {
+        crate::driver::inconclusive(format!("the I/O trace does not account for the chunk files on disk ({why}): some I/O of the store was not observed; refusing to judge"));
+    }
     match res {
         Ok(Ok(r)) => Ok((r, ctl)),
         Ok(Err(f)) => Err(f),
